@@ -27,6 +27,8 @@ LIB = [
     # twins of one-component standard packages (their unique name never grows)
     ("z/io", "io", False), ("w/io", "io", False), ("z/time", "time", False), ("z/os", "os", False),
     ("z/log", "log", False), ("w/deep/log", "log", False), ("z/stdlog", "stdlog", False),
+    # an element that merely ends in "vendor"
+    ("multivendor/qux", "qux", False), ("q/myvendor/pkgs/qux", "qux", False),
     # adversarial
     ("x/go-foo", "foo", True), ("q/x/foo", "bar", True), ("yy/xfoo", "bar", True),
     ("1a/foo", "foo", True), ("y/go-foo", "foo", True), ("w/foo-go", "foo", True),
@@ -210,7 +212,7 @@ class SrcGen:
             if c2 < 0.55:
                 return r.choice(BASICS)
             if c2 < 0.65 and self.locals_ok:
-                return r.choice(["LT", "*LT", "LN", "LG[int]", "LA", "LS"])
+                return r.choice(["LT", "*LT", "LN", "LG[int]", "LA", "LS", "LA", "Panic", "Nil", "Append", "Error"])
             return self.lib_type()
         k = r.randrange(12)
         d = depth - 1
@@ -318,7 +320,7 @@ class SrcGen:
     def package(self, name):
         """Returns (files: {relname: text}, interface names)."""
         r = self.r
-        self.local_names = {"LT", "LN", "LG", "LA", "LS", "LI0", "LC", "LMC"}
+        self.local_names = {"LT", "LN", "LG", "LA", "LS", "LI0", "LC", "LMC", "Panic", "Nil", "Append", "Error"}
         self.locals_ok = True
         libs = [l for l in LIB if (self.adv or not l[2]) and l[0] != "dotimp"]
         # focus on a few packages so that same-named ones meet
@@ -331,7 +333,7 @@ class SrcGen:
         # the package clause: usually the directory name; sometimes the name of a package the
         # mock will also import (sync above all: every mock with a method imports it)
         self.prev_methods = set()
-        self.clause = name
+        self.clause = name.split("/")[-1]
         if r.random() < 0.08:
             self.clause = r.choice(["sync", "sync", "foo", "bar", "context", "http", "template"])
         nfiles = r.choice([1, 1, 2])
@@ -380,7 +382,9 @@ class SrcGen:
                 body.append("type T struct{ Local int }\ntype N int\ntype S []T\ntype A = T\n")
                 self.local_names.update({"T", "N", "S", "A"})
             if fi == 0:
-                body.append("type LT struct{ V int }\ntype LN int\ntype LG[K any] struct{ V K }\ntype LA = LT\ntype LS []LT\ntype LI0 interface{ L0() }\ntype LC interface{ ~int | ~int64 }\ntype LMC interface{ Less(LT) bool }\n")
+                body.append("type LT struct{ V int }\ntype LN int\ntype LG[K any] struct{ V K }\ntype LA = LT\ntype LS []LT\ntype LI0 interface{ L0() }\ntype LC interface{ ~int | ~int64 }\ntype LMC interface{ Less(LT) bool }\n"
+                            "// aliases and a defined type named like identifiers the generated body uses\n"
+                            "type Panic = func(v any)\ntype Nil = func()\ntype Append = []int\ntype Error struct{ Code int }\n")
                 if r.random() < 0.2:
                     body.append("var V0 LI0\nfunc F0() {}\nconst K0 = 1\ntype NotIface struct{}\ntype GenNot[T any] struct{}\n")
             # extra named / dot / blank imports
@@ -456,7 +460,8 @@ class SrcGen:
                 elif c < 0.7:
                     cons.append("LC")
                 elif c < 0.8:
-                    cons.append("~int | ~string")
+                    cons.append(r.choice(["~int | ~string", "~string", "~float32 | ~float64", "interface{ ~string }",
+                                          "~string | ~[16]byte", "~int | ~string"]))
                 elif c < 0.84:
                     cons.append("interface{ int | int64 }")
                 elif c < 0.87:
@@ -718,8 +723,12 @@ def make_cases(rnd, root, n, adversarial=False, prefix="src", conflict_share=0.0
         name = "%s%d" % (prefix, i)
         ordsens = rnd.random() < 0.08
         g.clause = name
+        # a few source packages live under a directory whose name ends in "vendor" (not a vendor tree)
+        sub = "shopvendor/" if (prefix.startswith("f") and rnd.random() < 0.04) else ""
         late = not ordsens and rnd.random() < 0.08
         conflict = not ordsens and not late and rnd.random() < conflict_share
+        if sub:
+            ordsens = late = conflict = False
         if conflict:
             files, ifaces = conflict_case(rnd, name, adversarial)
         elif ordsens:
@@ -727,13 +736,13 @@ def make_cases(rnd, root, n, adversarial=False, prefix="src", conflict_share=0.0
         elif late:
             files, ifaces = late_rename_case(rnd, name)
         else:
-            files, ifaces = g.package(name)
+            files, ifaces = g.package(sub + name)
         for rel, text in files.items():
-            p = os.path.join(root, rel)
+            p = os.path.join(root, rel if rel.startswith(sub) else sub + rel)
             os.makedirs(os.path.dirname(p), exist_ok=True)
             with open(p, "w") as f:
                 f.write(text)
-        out.append({"dir": name, "ifaces": ifaces, "adv": adversarial, "ordsens": ordsens, "ordered": late, "pkgname": g.clause,
+        out.append({"dir": sub + name, "conflict": conflict, "ifaces": ifaces, "adv": adversarial, "ordsens": ordsens, "ordered": late, "pkgname": g.clause,
                     "named": any(re.search(r'^\s*[A-Za-z_]\w* "', t, re.M) for t in files.values())})
     return out
 
